@@ -22,6 +22,7 @@ typedef struct {
     ABT_barrier tb; /* barrier with one waiter used by tasklet callers */
 } bctx_t;
 
+static int c_task_err_shared, c_xb_ext, c_xb_single_es;
 static int c_rounds, c_cases, c_waits, c_task_err, c_task_ok, c_reinit, c_xb_rounds,
     c_laps;
 
@@ -30,14 +31,33 @@ static void barrier_body(actor_t *a)
     bctx_t *c = (bctx_t *)a->ctx;
     if (a->kind == ACT_TASK) {
         /* 1.x API: error; 2.0: sole waiter, returns at once. Both accepted. */
+        int rejected = 0;
         for (int i = 0; i < 3; i++) {
             int rc = ABT_barrier_wait(c->tb);
             if (rc == ABT_SUCCESS)
                 vrt_count(c_task_ok, 1);
-            else if (rc == ABT_ERR_BARRIER)
+            else if (rc == ABT_ERR_BARRIER) {
                 vrt_count(c_task_err, 1);
-            else
+                rejected = 1;
+            } else
                 vrt_violation("barrier:tasklet-rc", "tasklet wait returned %d", rc);
+        }
+        /* where tasklets are rejected, a rejected call on the barrier the
+         * others use must not count as an arrival (the round accounting of the
+         * real waiters would show an early release) */
+#ifndef ABT_ENABLE_VER_20_API
+        rejected = 1; /* the 1.x API rejects tasklet callers whatever the barrier */
+#endif
+        if (rejected && !c->use_xb && c->n >= 2) {
+            for (int i = 0; i < 6 && vrt_num_violations() == 0; i++) {
+                int rc = ABT_barrier_wait(c->b);
+                if (rc != ABT_ERR_BARRIER)
+                    vrt_violation("barrier:tasklet-rc", "tasklet wait on a %d-waiter barrier returned %d (a 1-waiter barrier "
+                                  "rejected the same caller)", c->n, rc);
+                vrt_count(c_task_err_shared, 1);
+                for (volatile int k = 0; k < 2000; k++)
+                    ;
+            }
         }
         return;
     }
@@ -113,6 +133,9 @@ int main(int argc, char **argv)
     c_task_ok = vrt_counter("tasklet_wait_accepted");
     c_reinit = vrt_counter("reinits");
     c_xb_rounds = vrt_counter("xstream_barrier_rounds");
+    c_task_err_shared = vrt_counter("tasklet_rejected_on_the_shared_barrier");
+    c_xb_ext = vrt_counter("xstream_barrier_external_waiters");
+    c_xb_single_es = vrt_counter("xstream_barrier_phases_with_one_stream");
     c_laps = vrt_counter("reentered_while_others_leaving");
     vrt_supervisor_start();
     vrt_rng r;
@@ -121,6 +144,8 @@ int main(int argc, char **argv)
     for (int s = 0; s < scen && vrt_num_violations() == 0; s++) {
         int nes, shared, pk, sp;
         world_random_config(&r, max_es, &nes, &shared, &pk, &sp);
+        if (s % 3 == 2)
+            nes = 1; /* only the primary stream: external threads are the other waiters */
         VRT_ABT(ABT_init(0, NULL));
         world_t w;
         world_create(&w, nes, shared, pk, sp);
@@ -162,16 +187,28 @@ int main(int argc, char **argv)
         }
         VRT_ABT(ABT_barrier_free(&c.b));
         VRT_ABT(ABT_barrier_free(&c.tb));
-        /* xstream barrier: one ULT per stream, private pools, no stealing */
-        if (!w.shared && w.sched_predef != ABT_SCHED_RANDWS && w.nes > 1) {
-            c.use_xb = 1;
-            VRT_ABT(ABT_xstream_barrier_create((uint32_t)w.nes, &c.xb));
-            int rounds = 1 + (int)vrt_range(&r, (uint64_t)max_rounds);
-            /* all ULT actors: actor i goes to pool i % nes == i */
-            run_phase(&w, &c, &r, w.nes, 0, 0, rounds, vrt_hash64(vrt_seed + 99 + (uint64_t)s));
-            vrt_count(c_xb_rounds, (uint64_t)rounds);
-            VRT_ABT(ABT_xstream_barrier_free(&c.xb));
-            vrt_signature_add("%s,xbarrier", wd);
+        /* xstream barrier: at most one ULT per stream (private pools, no
+         * stealing; with shared pools a single ULT), plus external threads */
+        {
+            int private_streams = !w.shared && w.sched_predef != ABT_SCHED_RANDWS;
+            int nult = private_streams ? 1 + (int)vrt_range(&r, (uint64_t)w.nes) : (int)vrt_range(&r, 2);
+            int xnext = (int)vrt_range(&r, 4);
+            if (w.nes == 1 && xnext == 0)
+                xnext = 1 + (int)vrt_range(&r, 3);
+            if (nult + xnext >= 1) {
+                c.use_xb = 1;
+                VRT_ABT(ABT_xstream_barrier_create((uint32_t)(nult + xnext), &c.xb));
+                int rounds = 1 + (int)vrt_range(&r, (uint64_t)max_rounds);
+                /* ULT actor i goes to pool i % nes == i */
+                run_phase(&w, &c, &r, nult + xnext, xnext, 0, rounds, vrt_hash64(vrt_seed + 99 + (uint64_t)s));
+                vrt_count(c_xb_rounds, (uint64_t)rounds);
+                vrt_count(c_xb_ext, (uint64_t)xnext);
+                if (w.nes == 1 && nult + xnext >= 2)
+                    vrt_count(c_xb_single_es, 1);
+                VRT_ABT(ABT_xstream_barrier_free(&c.xb));
+                vrt_signature_add("%s,xbarrier,u%d,e%d", wd, nult, xnext);
+                c.use_xb = 0;
+            }
         }
         world_destroy(&w);
         VRT_ABT(ABT_finalize());
